@@ -7,6 +7,7 @@ import (
 	"fmt"
 	"io"
 	"runtime"
+	"strings"
 	"time"
 
 	kafka "github.com/segmentio/kafka-go"
@@ -49,13 +50,18 @@ type wireKind struct {
 	vers  map[int16]int16 // version ceilings for this kind
 	magic int8            // stored record format
 	codec int8
+	pad   int                              // extra bytes in every stored value
 	prep  func(e *wireEnv) error           // un-damaged preparation (join before sync ...)
 	call  func(e *wireEnv) (string, error) // the call; returns "" or a description of a wrong value
 }
 
 const wireBase = int64(1600000000000)
 
+// wirePad: padding of the stored values in the current run's log
+var wirePad int
+
 func wireCluster(s *Sim, k *wireKind) *wireEnv {
+	wirePad = k.pad
 	n := NewNet(s)
 	n.MinLatency, n.MaxLatency = 200*time.Microsecond, 200*time.Microsecond
 	cl := NewCluster(s, n)
@@ -74,7 +80,7 @@ func wireCluster(s *Sim, k *wireKind) *wireEnv {
 			b := rc.Batch{Magic: magic, Codec: k.codec, BaseOffset: off, LastOffsetDelta: int32(nrec - 1), ProducerID: -1, ProducerEpoch: -1, BaseSequence: -1,
 				FirstTimestamp: wireBase + off, MaxTimestamp: wireBase + off + 1}
 			for j := 0; j < nrec; j++ {
-				r := rc.Record{Offset: off + int64(j), Timestamp: wireBase + off + int64(j), Key: []byte("k"), Value: []byte(fmt.Sprintf("wt/%d/%d|%s", p.ID, off+int64(j), "payload-payload"))}
+				r := rc.Record{Offset: off + int64(j), Timestamp: wireBase + off + int64(j), Key: []byte("k"), Value: []byte(fmt.Sprintf("wt/%d/%d|%s", p.ID, off+int64(j), "payload-payload") + strings.Repeat("x", k.pad))}
 				if magic == 2 && j == 0 {
 					r.Headers = []rc.Header{{Key: "h", Value: []byte("v")}}
 				}
@@ -111,7 +117,7 @@ func checkRecords(what string, part int32, from int64, next func() (int64, []byt
 		if off < 3 || off >= 9 {
 			return fmt.Sprintf("%s returned offset %d outside the log [3,9)", what, off), nil
 		}
-		want := fmt.Sprintf("wt/%d/%d|payload-payload", part, off)
+		want := fmt.Sprintf("wt/%d/%d|payload-payload", part, off) + strings.Repeat("x", wirePad)
 		if string(val) != want {
 			return fmt.Sprintf("%s returned offset %d with value %q (stored %q)", what, off, trunc(val), want), nil
 		}
@@ -164,7 +170,13 @@ func vers(kv ...int16) map[int16]int16 {
 }
 
 func connFetchKind(name string, fetchCeil int16, magic, codec int8) wireKind {
-	return wireKind{name: name, path: "conn", api: 1, vers: vers(1, fetchCeil), magic: magic, codec: codec,
+	return connFetchKindPad(name, fetchCeil, magic, codec, 0)
+}
+
+// connFetchKindPad: the stored values are padded to pad more bytes (values of
+// more than 64 KiB take their own path through the reader).
+func connFetchKindPad(name string, fetchCeil int16, magic, codec int8, pad int) wireKind {
+	return wireKind{name: name, path: "conn", api: 1, vers: vers(1, fetchCeil), magic: magic, codec: codec, pad: pad,
 		call: func(e *wireEnv) (string, error) {
 			if _, err := e.conn.Seek(4, kafka.SeekAbsolute|kafka.SeekDontCheck); err != nil {
 				return "", err
@@ -286,6 +298,9 @@ func buildWireKinds() []wireKind {
 	add(connFetchKind("conn-fetch-v5-magic2", 7, 2, 0))
 	add(connFetchKind("conn-fetch-v10-magic2-snappy", 11, 2, 2))
 	add(connFetchKind("conn-fetch-v10-magic2-zstd", 11, 2, 4))
+	add(connFetchKindPad("conn-fetch-v2-magic1-70KiB-values", 3, 1, 0, 70000))
+	add(connFetchKindPad("conn-fetch-v2-magic0-70KiB-values", 3, 0, 0, 70000))
+	add(connFetchKindPad("conn-fetch-v10-magic2-70KiB-values", 11, 2, 0, 70000))
 	// ---- Transport path
 	add(clientFetchKind("client-fetch-v2-magic1-lz4", 2, 1, 3))
 	add(clientFetchKind("client-fetch-v4-magic2", 4, 2, 0))
@@ -743,8 +758,19 @@ func cutrespScenario(s *Sim, params map[string]string) {
 	wireCompanion = k.path == "conn" && variant == 1
 	wirePooled = k.path == "transport" && variant == 1
 	e, out, _ := runWireCase(s, k, func(r *Req, frame []byte, _ []rc.LenField, out *wireOutcome) []byte {
-		if len(frame) > cutMaxLen {
+		if len(frame) > cutMaxLen && k.pad == 0 {
 			s.Fail("SIM", "corpus-too-long", "%s: response of %d bytes exceeds the enumerated range", k.name, len(frame))
+		}
+		if k.pad > 0 {
+			// long responses: the enumerated positions are spread over the frame
+			// (position cutMaxLen still delivers it whole)
+			if pos == cutMaxLen {
+				return frame
+			}
+			cutAt = int(int64(pos) * int64(len(frame)) / int64(cutMaxLen))
+			r.Fault = "cut-exact"
+			s.Count("fault:cut-" + modeName)
+			return frame
 		}
 		if pos >= len(frame) {
 			return frame // no cut: the whole response is delivered
